@@ -212,13 +212,13 @@ func TestC20(t *testing.T) {
 	}
 	h.Require(req...)
 	vlib.Rapid(h, "add-fresh-declaration", h.N(20000, 1000000), func(t *rapid.T) c20Case {
-		doc := vlib.GenDoc(t, vlib.GenOpts{Macros: rapid.Bool().Draw(t, "macros")})
+		doc := vlib.GenDoc(t, vlib.GenOpts{Macros: rapid.Bool().Draw(t, "macros"), Inheritance: rapid.Bool().Draw(t, "inheritance")})
 		_, units := doc.Blocks()
 		kind := rapid.SampledFrom(vlib.FreshKinds).Draw(t, "kind")
 		return c20Case{Doc: doc, Kind: kind, Unit: vlib.FreshDecl(t, doc, kind), Pos: rapid.IntRange(0, len(units)).Draw(t, "pos")}
 	}, c20Check)
 	vlib.Rapid(h, "delete-unreferenced", h.N(8000, 300000), func(t *rapid.T) c20Case {
-		doc := vlib.GenDoc(t, vlib.GenOpts{Macros: rapid.Bool().Draw(t, "macros")})
+		doc := vlib.GenDoc(t, vlib.GenOpts{Macros: rapid.Bool().Draw(t, "macros"), Inheritance: rapid.Bool().Draw(t, "inheritance")})
 		_, units := doc.Blocks()
 		return c20Case{Doc: doc, Kind: "DELETE", Pos: rapid.IntRange(0, max(0, len(units)-1)).Draw(t, "pos")}
 	}, c20Check)
